@@ -39,11 +39,109 @@ def stRecord (toks : List String) : String :=
     | _ => "O st PARSE"
   | _ => "O st PARSE"
 
+/-- one projection call of the trace: kind ('Q'/'U'), DontThrow option, outcome, time == returned time, time == advanced time -/
+structure PCall where
+  kind : String
+  dontThrow : Bool
+  ok : Bool
+  atRet : Bool
+  atAdv : Bool
+
+partial def parseCalls : List String → List PCall
+  | k :: d :: o :: r :: a :: rest =>
+    if k == "Q" || k == "U" then { kind := k, dontThrow := d == "1", ok := o == "1", atRet := r == "1", atAdv := a == "1" } :: parseCalls rest
+    else []
+  | _ => []
+
+/-- group the DontThrow calls (trial steps) into attempts; `none` = the call pattern is impossible for attemptDAEStep
+(projectU without a successful projectQ before it, or a successful projectQ not followed by projectU) -/
+partial def attemptsOf : List PCall → Option (List Att)
+  | [] => some []
+  | q :: rest =>
+    if q.kind != "Q" then none else
+    -- what the model says happens after this projectQ outcome
+    let pred := attemptDAECore true false q.ok true
+    if pred.2.2.2 then     -- model: projectU is called next
+      match rest with
+      | u :: rest' =>
+        if u.kind != "U" then none else
+        (attemptsOf rest').map (fun l => { odeConverged := true, gateExceeded := false, projQok := q.ok, projUok := u.ok, errWithinAcc := false } :: l)
+      | [] => none
+    else
+      match rest with
+      | u :: _ => if u.kind == "U" then none else
+        (attemptsOf rest).map (fun l => { odeConverged := true, gateExceeded := false, projQok := q.ok, projUok := false, errWithinAcc := false } :: l)
+      | [] => some [{ odeConverged := true, gateExceeded := false, projQok := q.ok, projUok := false, errWithinAcc := false }]
+
+def markLast : List Att → List Att
+  | [] => []
+  | [a] => [{ a with errWithinAcc := true }]
+  | a :: rest => a :: markLast rest
+
+def provChar : Prov → String
+  | .projected => "P"
+  | _ => "R"
+
+/-- replay one `I orc` record; returns the O line and the provenance of the advanced state afterwards -/
+def orcRecord (adv : Prov) (toks : List String) : String × Prov :=
+  match toks with
+  | hec :: forced :: pin :: status :: interp :: nSteps :: dErr :: bar :: rest =>
+    if bar != "|" then ("O orc PARSE", adv) else
+    let hasErrCtl := hec == "1"
+    let forced := forced == "1"
+    let projInterp := pin == "1"
+    let calls := parseCalls rest
+    let stepCalls := calls.filter (·.dontThrow)
+    let throwCalls := calls.filter (fun c => !c.dontThrow)
+    let nFail := (stepCalls.filter (fun c => !c.ok)).length
+    match attemptsOf stepCalls with
+    | none => ("O orc TRACE_SHAPE", adv)
+    | some vis =>
+      let gated : Att := { odeConverged := true, gateExceeded := true, projQok := true, projUok := true, errWithinAcc := false }
+      let step : Option (List Att) :=
+        if nSteps == "0" then none
+        else if forced then some (if vis.isEmpty then [gated] else vis)
+        else some (if vis.isEmpty then [gated] else markLast vis)
+      -- with a forced minimum step every trial step is accepted: more than one visible attempt is impossible
+      if forced && vis.length > 1 then ("O orc FORCED_RETRY", adv) else
+      let obs : CallObs := { step := step,
+                             backedUp := throwCalls.any (fun c => c.kind == "U" && c.atAdv && !c.atRet),
+                             interp := interp == "1",
+                             projOK := throwCalls.all (·.ok) }
+      -- error-test failures: the visible failed attempts are a lower bound (gated attempts are invisible), none if forced
+      let efOK := match step with
+        | none => true
+        | some atts => match stepLoop hasErrCtl forced atts 0 0 with
+          | some (_, _, ef) => if forced then dErr.toNat! == 0 else ef ≤ dErr.toNat!
+          | none => true
+      match callProv hasErrCtl forced projInterp adv obs with
+      | none => ("O orc EXC X " ++ toString nFail, adv)
+      | some (a2, r) =>
+        if !efOK then ("O orc ERRTEST_COUNT", a2) else
+        ("O orc " ++ status ++ " " ++ provChar r ++ " " ++ toString nFail, a2)
+  | _ => ("O orc PARSE", adv)
+
+def tagOf (toks : List String) : String :=
+  match toks.dropWhile (· != "seed") with
+  | _ :: a :: b :: c :: _ => a ++ " " ++ b ++ " " ++ c
+  | _ => ""
+
 def main : IO Unit := do
   let lines ← readStdinLines
   let out ← IO.getStdout
+  let mut adv : Prov := .projected
+  let mut lastTag := ""
   for ln in lines do
     match tokens ln with
+    | "I" :: "orc" :: rest =>
+      out.putStrLn ln.trimAscii.toString
+      let tag := tagOf rest
+      if tag != lastTag then
+        adv := .projected       -- Integrator::initialize projects (ForceProjection) and throws if it cannot
+        lastTag := tag
+      let (o, a2) := orcRecord adv rest
+      adv := a2
+      out.putStrLn o
     | "I" :: "st" :: rest => out.putStrLn ln.trimAscii.toString; out.putStrLn (stRecord rest)
     | "I" :: "sess" :: _ => out.putStrLn ln.trimAscii.toString; out.putStrLn "O sess 1"
     | _ => pure ()
